@@ -142,14 +142,14 @@ CompactBlob(x) ==             \* unsigned varint of length+1, 0 for null
 LegacyArrayLen(n) == BE(IntBits(n), 4)           \* n = -1 for null
 CompactArrayLen(n) == UVarNat(n + 1)
 
-\* a length read from the wire as a native int, or "huge" (-2) when it cannot
-\* possibly be satisfied by any input TLC can hold
-LenOfBits(b) == IF FitsS(b, 31) THEN BitsToInt(b) ELSE IF Sign(b) = 1 THEN -3 ELSE -2
+\* a length read from the wire as a native int; lengths TLC cannot hold are mapped to
+\* values just outside the native range, which behave like any other impossible length
+LenOfBits(b) == IF FitsS(b, 31) THEN BitsToInt(b)
+                ELSE IF Sign(b) = 1 THEN -(2^30) - 1 ELSE 2^30
 
-\* shared tail of all blob decoders: len = -1 null, < -1 invalid, -2 huge
+\* shared tail of all blob decoders: len = -1 null, < -1 invalid
 DecBlobTail(bs, pos, len, nullable, isString) ==
   IF len = -1 THEN (IF nullable THEN Ok(NullV, pos) ELSE Err("unexpected_null", pos))
-  ELSE IF len = -2 THEN Err("underflow", Len(bs))
   ELSE IF len < 0 THEN Err("underflow", Len(bs))      \* negative size: reads to EOF, then short
   ELSE IF pos + len > Len(bs) THEN Err("underflow", Len(bs))
   ELSE LET body == SubSeq(bs, pos+1, pos+len) IN
@@ -167,8 +167,7 @@ DecLegacyBytes(bs, pos, nullable) ==
 DecCompactBlob(bs, pos, nullable, isString) ==
   LET h == DecUVarBits(bs, pos, MaxVarintBytes) IN
   IF ~h.ok THEN Err(h.err, h.pos)
-  ELSE LET l == LenOfBits(h.val) IN
-       DecBlobTail(bs, h.pos, IF l >= 0 THEN l - 1 ELSE l, nullable, isString)
+  ELSE DecBlobTail(bs, h.pos, LenOfBits(h.val) - 1, nullable, isString)
 
 \* ---- type domains (PrimTypes) -------------------------------------------
 IntWidth(kt) ==
